@@ -2561,9 +2561,12 @@ namespace igris
             if (newsize >= N)
                 newsize = N;
 
-            for (size_t i = m_size; i < newsize; ++i)
+            // the size follows every constructed element: if a constructor
+            // throws, what was built so far is still owned
+            while (m_size < newsize)
             {
-                new (&_data[i]) T{};
+                new (&_data[m_size]) T{};
+                ++m_size;
             }
 
             for (size_t i = newsize; i < m_size; ++i)
